@@ -54,32 +54,43 @@ TSwap ==
 TTrigger ==
   /\ Is("events.trigger") /\ Consume
   /\ IF Ev.event = "tensorlib_changed"
-     THEN /\ pc = "swapped" /\ chg                                   \* fired only when changed
-          /\ Ev.noop = FALSE \/ Len(subs) = 0
-          /\ pc' = IF Ev.noop THEN "called" ELSE "triggered"
+     THEN IF pc = "swapped"
+          THEN /\ chg                                                  \* fired only when changed
+               /\ Ev.noop = FALSE \/ Len(subs) = 0
+               /\ pc' = IF Ev.noop THEN "called" ELSE "triggered"
+          \* named deviation TestFiresEventByHand: code outside set_backend (tests/test_interpolate.py,
+          \* test_events.py) triggers the event itself; the callbacks then re-derive for the SAME backend
+          ELSE /\ pc = "idle"
+               /\ pc' = IF Ev.noop THEN "idle" ELSE "mtriggered"
      ELSE UNCHANGED pc
   /\ UNCHANGED <<cur, subs, chg>>
 
 TCall ==     \* the callback list about to be run, in order, with liveness
   /\ Is("events.call") /\ Consume
-  /\ IF pc = "triggered"
+  /\ IF pc \in {"triggered", "mtriggered"}
      THEN /\ Len(Ev.callbacks) = Len(subs)
           /\ \A k \in 1..Len(subs) : Ev.callbacks[k][3] => (subs[k].owner = 0 \/ subs[k].owner = Ev.callbacks[k][2])
           /\ \A k \in 1..Len(subs) : Ev.callbacks[k][3] => subs[k].alive       \* a dead entry does not resurrect
           /\ subs' = [k \in 1..Len(subs) |-> [subs[k] EXCEPT !.alive = Ev.callbacks[k][3],
                                                                !.pre = IF Ev.callbacks[k][3] THEN cur ELSE @]]
-          /\ pc' = "called"
+          /\ pc' = IF pc = "triggered" THEN "called" ELSE "mcalled"
      ELSE UNCHANGED <<subs, pc>>            \* Callables of other events
   /\ UNCHANGED <<cur, chg>>
 
 TFlush ==
   /\ Is("events.flush") /\ Consume
-  /\ IF pc = "called"
+  /\ IF pc \in {"called", "mcalled"}
      THEN /\ Ev.removed = Cardinality({k \in 1..Len(subs) : ~subs[k].alive})
           /\ Ev.kept = Cardinality({k \in 1..Len(subs) : subs[k].alive})
           /\ subs' = SelectSeq(subs, LAMBDA s : s.alive)
-     ELSE UNCHANGED subs                   \* flush of another event's list
-  /\ UNCHANGED <<cur, pc, chg>>
+          /\ pc' = IF pc = "mcalled" THEN "idle" ELSE pc
+     ELSE UNCHANGED <<subs, pc>>                   \* flush of another event's list
+  /\ UNCHANGED <<cur, chg>>
+
+\* after a hand-fired event without dead entries there is no flush record: back to idle silently with the next record
+TManualDone ==
+  /\ More /\ pc = "mcalled" /\ Ev.ev # "events.flush"
+  /\ pc' = "idle" /\ UNCHANGED <<tid, l, cur, subs, chg>>
 
 TFired ==
   /\ Is("set_backend.fired") /\ Consume
@@ -99,7 +110,7 @@ TDone ==
 TMarker == Is("marker") /\ Consume /\ UNCHANGED <<cur, subs, pc, chg>>
 
 NextTrace ==
-  /\ tid <= Len(Traces) /\ l = Len(Tr.events) + 1 /\ pc = "idle"
+  /\ tid <= Len(Traces) /\ l = Len(Tr.events) + 1 /\ pc \in {"idle", "mcalled"}
   /\ PrintT(<<"TRACE-OK", Tr.id>>)
   /\ tid' = tid + 1 /\ l' = 1 /\ pc' = "idle" /\ chg' = FALSE
   /\ IF tid + 1 <= Len(Traces)
@@ -107,7 +118,7 @@ NextTrace ==
           /\ subs' = [k \in 1..Traces[tid + 1].init.n |-> [owner |-> 0, alive |-> TRUE, pre |-> cur']]
      ELSE UNCHANGED <<cur, subs>>
 
-Next == TSubscribe \/ TSwap \/ TTrigger \/ TCall \/ TFlush \/ TFired \/ TDone \/ TMarker \/ NextTrace
+Next == TSubscribe \/ TSwap \/ TTrigger \/ TCall \/ TFlush \/ TManualDone \/ TFired \/ TDone \/ TMarker \/ NextTrace
 TraceSpec == Init /\ [][Next]_vars
 
 \* every live entry is current whenever no switch is in flight -- evaluated at every step of every trace
